@@ -48,20 +48,37 @@ let parse_msg (b : int array) : msg option =
   let u8 o = if o < n then b.(o) else raise Bad in
   let u16 o = (u8 o) * 256 + u8 (o + 1) in
   let u32 o = (u16 o) * 65536 + u16 (o + 2) in
-  (* returns (labels joined with '.', next offset); follows pointers for the text only *)
-  let rec name o depth acc =
-    if depth > 64 then raise Bad;
-    let l = u8 o in
-    if l = 0 then (String.concat "." (List.rev acc), o + 1)
-    else if l land 0xC0 = 0xC0 then begin
-      let tgt = ((l land 0x3F) lsl 8) lor u8 (o + 1) in
-      if tgt >= o then raise Bad;
-      let (s, _) = name tgt (depth + 1) acc in (s, o + 2) end
-    else if l > 63 then raise Bad
-    else begin
-      ignore (u8 (o + l));
-      let lab = String.init l (fun i -> Char.chr b.(o + 1 + i)) in
-      name (o + 1 + l) depth (lab :: acc) end in
+  (* ares_dns_name_parse: labels joined with '.', reserved characters escaped with a backslash,
+     non-printable bytes as \DDD; a pointer must lead before the lowest label start seen so far *)
+  let name start (_ : int) (_ : string list) =
+    let buf = Buffer.create 32 in
+    let pos = ref start and label_start = ref start and save = ref (-1) and fin = ref false in
+    while not !fin do
+      if !label_start > !pos then label_start := !pos;
+      let c = u8 !pos in
+      incr pos;
+      if c land 0xC0 = 0xC0 then begin
+        let off = ((c land 0x3F) lsl 8) lor u8 !pos in
+        incr pos;
+        if off >= !label_start then raise Bad;
+        if !save < 0 then save := !pos;
+        pos := off
+      end else if c land 0xC0 <> 0 then raise Bad
+      else if c = 0 then fin := true
+      else begin
+        if Buffer.length buf <> 0 then Buffer.add_char buf '.';
+        for i = 0 to c - 1 do
+          let ch = u8 (!pos + i) in
+          if ch < 0x20 || ch > 0x7E then Buffer.add_string buf (Printf.sprintf "\\%03d" ch)
+          else begin
+            if List.mem (Char.chr ch) ['"'; '.'; ';'; '\\'; '('; ')'; '@'; '$'] then Buffer.add_char buf '\\';
+            Buffer.add_char buf (Char.chr ch)
+          end
+        done;
+        pos := !pos + c
+      end
+    done;
+    (Buffer.contents buf, (if !save >= 0 then !save else !pos)) in
   try
     if n < 12 then raise Bad;
     let flags = u16 2 in
@@ -89,13 +106,14 @@ let parse_msg (b : int array) : msg option =
         while !p + 4 <= rd + rdlen do
           let code = u16 !p and len = u16 (!p + 2) in
           if !p + 4 + len > rd + rdlen then raise Bad;
-          if code = 10 then cookie := Some (List.init len (fun j -> b.(!p + 4 + j))) else incr nopts;
+          (* ares_dns_rr_get_opt_byid returns the FIRST option with the id *)
+          if code = 10 then (if !cookie = None then cookie := Some (List.init len (fun j -> b.(!p + 4 + j)))) else incr nopts;
           p := !p + 4 + len
         done end
       else begin
         if t = 6 then soa := true
         else if t <> 24 && ttl < !minttl then minttl := ttl;
-        if t = 1 && rdlen = 4 && b.(rd) = 11 && i <= an then
+        if t = 1 && rdlen = 4 && b.(rd) = 11 && i <= an && !tag = None then
           tag := Some (b.(rd + 1) * 65536 + b.(rd + 2) * 256 + b.(rd + 3)) end;
       off := rd + rdlen
     done;
@@ -183,7 +201,7 @@ let run_case k (caseline : string) (lines : string list) =
   let geti key d = match field cfgw key with Some v -> (try int_of_string v with _ -> d) | None -> d in
   let flags = match field cfgw "flags" with Some v -> split_on ',' v | None -> [] in
   let has f = List.mem f flags in
-  let nservers = geti "servers" 1 in
+  let nservers = geti "servers" 1 + geti "servers6" 0 in
   let tries = geti "tries" 3 in
   let qttl = geti "qcachettl" 3600 in
   let cfg = fixed_cfg (has "dns0x20") (has "igntc") (has "nocheckresp") (has "usevc")
@@ -197,7 +215,8 @@ let run_case k (caseline : string) (lines : string list) =
   let addr_id a = match Hashtbl.find_opt addr_tbl a with Some i -> i | None ->
     let i = 1000 + Hashtbl.length addr_tbl in Hashtbl.add addr_tbl a i; i in
   let strip_port a = match String.rindex_opt a ':' with Some i -> String.sub a 0 i | None -> a in
-  let srv_addr i = addr_id (Printf.sprintf "10.0.0.%d" (i + 1)) in
+  let n4 = geti "servers" 1 and n6 = geti "servers6" 0 in
+  let srv_addr i = addr_id (if i < n4 then Printf.sprintf "10.0.0.%d" (i + 1) else Printf.sprintf "[fd00::%x]" (i - n4 + 1)) in
   let ck0 = { ck_state = zi 0; ck_client = List.init 8 (fun _ -> zi 0); ck_server = []; ck_uts_sec = zi 0; ck_uts_usec = zi 0 } in
   let st = ref (init_chan (List.init nservers (fun i -> { sv_idx = zi i; sv_addr = zi (srv_addr i); sv_cookie = ck0 }))) in
   let snap = ref !st in
@@ -222,6 +241,7 @@ let run_case k (caseline : string) (lines : string list) =
   let dirty = ref false in
   let prev_recv = ref (-1) in
   let last_new : query option ref = ref None in
+  let in_cancel = ref false in
   let label = ref "nolabel" in
   let n_read = ref 0 and n_deliv = ref 0 and n_hit = ref 0 in
   let feats : (string, unit) Hashtbl.t = Hashtbl.create 8 in
@@ -453,6 +473,28 @@ let run_case k (caseline : string) (lines : string list) =
       | Some tk, (top : pending) :: _ when top.pn_tok = tk && not top.pn_created -> top.pn_created <- true; top.pn_tx <- Some t; top
       | _ -> { pn_tok = -1; pn_name = ""; pn_type = 0; pn_class = 0; pn_rd = false; pn_cd = false; pn_edns = false;
                pn_tx = Some t; pn_cb_nodata = None; pn_hit = false; pn_created = true; pn_wrapped = false } in
+    (* queries created before this one that have not transmitted yet (TCP connection not
+       established) took their ids first: all_queries is in creation order *)
+    (match !last_view with
+     | Some v ->
+       let rec before = function
+         | [] -> ()
+         | q :: _ when q.v_id = id -> ()
+         | q :: rest ->
+           (if find_mq q.v_id = None then
+              match q.v_tok, !req_stack with
+              | Some tk, (top : pending) :: _ when top.pn_tok = tk && not top.pn_created ->
+                top.pn_created <- true;
+                let (outs, chosen) = do_new top (Some q.v_id) in
+                if outs <> [] then diff "model answers t%d from the cache, implementation created a query" tk;
+                (match chosen with
+                 | Some c when c <> q.v_id -> diff "generate_unique_qid: model chose %d, implementation %d" c q.v_id
+                 | _ -> ());
+                last_new := find_mq q.v_id
+              | _ -> ());
+           before rest in
+       before v.vqs
+     | None -> ());
     if pn.pn_tok < 0 then Hashtbl.replace feats (if vnore then "probe" else "internal") ();
     let (outs, chosen) = do_new ~internal:(pn.pn_tok < 0 && vnore) pn (Some id) in
     if outs <> [] then diff "model answers the request behind transmission id=%d from the cache, implementation transmitted" id;
@@ -513,7 +555,19 @@ let run_case k (caseline : string) (lines : string list) =
         | "SOCKET" :: s :: _ :: ty :: _ when starts_with "s" s ->
           Hashtbl.replace sock_tcp (sock_idx s) (ty = "type=tcp")
         | "CONNECT" :: s :: addr :: _ -> Hashtbl.replace sock_peer (sock_idx s) (addr_id (strip_port addr))
-        | "CLOSE" :: s :: _ -> Queue.clear (queue_of (sock_idx s))
+        | "CLOSE" :: s :: _ ->
+          Queue.clear (queue_of (sock_idx s));
+          if !in_cancel then begin
+            (* closed from inside a callback (ares_cancel): read_answers drops what is left of the
+               batch it read from this socket *)
+            let keep = Queue.create () in
+            Queue.iter (fun (sk, x) -> if sk = sock_idx s then bump "discarded-after-close" else Queue.add (sk, x) keep) pending_reads;
+            Queue.clear pending_reads; Queue.transfer keep pending_reads
+          end else
+            (* the regular clean-up comes after every read of this call has been processed *)
+            flush_reads ()
+        | "CANCEL" :: "begin" :: _ -> in_cancel := true
+        | "CANCEL" :: "end" :: _ -> in_cancel := false
         | "TX" :: x :: s :: rest ->
           let j = int_of_string (String.sub x 1 (String.length x - 1)) in
           let hex = match field rest "hex" with Some h -> h | None -> "" in
@@ -592,6 +646,8 @@ let run_case k (caseline : string) (lines : string list) =
             end
           end
         | "SERVERSTATE" :: addr :: succ :: _ ->
+          let addr = Str.global_substitute (Str.regexp "%\\([0-9A-Fa-f][0-9A-Fa-f]\\)")
+              (fun m -> String.make 1 (Char.chr (int_of_string ("0x" ^ Str.matched_group 1 m)))) addr in
           let a = addr_id (strip_port addr) in
           let srv = let rec f i = if i >= nservers then -1 else if srv_addr i = a then i else f (i + 1) in f 0 in
           want_output ();
@@ -633,7 +689,11 @@ let run_case k (caseline : string) (lines : string list) =
                          + int_of_string (Str.matched_group 3 line)) in
           let in_req = (match !req_stack with pn :: _ when pn.pn_tok = t -> Some pn | _ -> None) in
           if not has_rec then begin
-            if in_req = None then want_output ();
+            (* no feeding here: a callback without a record that the accept path causes follows a
+               failure mark (which has already pulled the packet in); anything else is a send-side
+               end (time-out, cancel from a callback) that must take effect before the rest of the
+               batch is processed *)
+            skip_unobservable ();
             (* callbacks without a record: the order among them (order of the connection's own
                query list) is not modelled, take the first matching prediction *)
             let found = ref false in
@@ -646,7 +706,14 @@ let run_case k (caseline : string) (lines : string list) =
              | false ->
                (match in_req with
                 | Some pn -> pn.pn_cb_nodata <- Some status
-                | None -> if not wrapped then ended_nodata := (t, status) :: !ended_nodata))
+                | None ->
+                  if not wrapped then begin
+                    (* an end the accept path did not cause (time-out, cancel, send failure): it
+                       takes effect now - packets still to be processed no longer find the query *)
+                    match List.find_opt (fun q -> iz q.q_tok = t) !st.ch_queries with
+                    | Some q -> ignore (apply (EEnd (q.q_qid, zi status)) "EEnd")
+                    | None -> ended_nodata := (t, status) :: !ended_nodata
+                  end))
           end else begin
             incr n_deliv;
             match in_req with
@@ -734,7 +801,6 @@ let run_case k (caseline : string) (lines : string list) =
                              (match tag with Some tg -> string_of_int tg | None -> "untagged"))
               end
           end
-        | "CANCEL" :: "begin" :: _ -> flush_reads ()
         | "DESTROY" :: _ -> stop := true
         | "BADOP" :: _ -> bump "badop"
         | "INIT" :: rc :: _ -> if rc <> "rc=0" then raise (Unsupported "init failed")
